@@ -626,7 +626,7 @@ def check_C04(ctx):
     junk_jobs(ctx, ["Inv_C04"], [{"op": "clean"}], None)
     pump_job(ctx, ["Inv_C04"], [{"op": "clean"}], ["open", "stray", "nest-p", "pending", "lines", "mb"], [100, 257] if ctx.quick else [100, 257, 300])
     # the command on large sources without a ready element (the marker of the core is not among the targets)
-    cli_big_job(ctx, invariants=("Inv_C04",), targets=("zz",), ks=[1800, 3500])    # the reference view of the whole source is evaluated: smaller than in C20
+    cli_big_job(ctx, invariants=("Inv_C04",), targets=("zz",), ks=[1800, 3500], nunits=2)    # the reference view of the whole source is evaluated: smaller than in C20
     repo_docs_job(ctx, ["Inv_C04"], [{"op": "clean"}])
 
 
@@ -1191,7 +1191,7 @@ def pump_job(ctx, invariants, ops, units, ks, cores=(0, 1), name="pumped"):
     ctx.job(name, gens=gens, invariants=invariants, ops=ops, cfg={"ds": "<", "de": ">"}, nontrivial=has_ready, shards=8)
 
 
-def cli_big_job(ctx, invariants=("Inv_C20",), targets=("a",), ks=None):
+def cli_big_job(ctx, invariants=("Inv_C20",), targets=("a",), ks=None, nunits=3):
     """documents beyond every buffer size of a pipe or a chunked reader (8 KiB, 64 KiB), multi-byte characters at every
     alignment, through standard input and through a file: the command must return what the library returns"""
     from vlib import TlaSet
@@ -1204,7 +1204,7 @@ def cli_big_job(ctx, invariants=("Inv_C20",), targets=("a",), ks=None):
            {"op": "list_json"}, cli("stdin", "stdout", "list", True)]
     units = [[Chars("é"), Chars("あ")], [Chars("aé"), Chars("😀b")], [Chars("p\x01; é\n"), Chars("")]]
     gens = [{"base": "GenPump", "workers": 2,
-             "consts": {"Units": units, "Cores": [Chars(PUMP_CORES[0])], "Ks": TlaSet(ks or ([3000, 9000] if q else [1500, 3000, 9000, 25000]))}}]
+             "consts": {"Units": units[:nunits], "Cores": [Chars(PUMP_CORES[0])], "Ks": TlaSet(ks or ([3000, 9000] if q else [1500, 3000, 9000, 25000]))}}]
     ctx.job("cli-big", gens=gens, invariants=list(invariants), ops=ops, cli=True,
             cfg={"ds": "<", "de": ">", "tl": "tl", "rm": "rm", "off": "+00:00", "now": [19000, 0], "targets": list(targets)}, nontrivial=None, shards=6)
 
